@@ -297,10 +297,12 @@ def rs_literal(rng, used, forms=True):
         return t, float(t)
     v = _fresh(rng, used)
     if r < 0.76:
-        return "%d%s" % (v, rng.choice(["u32", "i64", "usize", "u64"])), v
+        # the documented spellings: 1024usize and 100_i32 (separator before the suffix), separators inside the digits
+        digits = str(v) if v < 1000 or rng.random() < 0.5 else str(v)[:-3] + "_" + str(v)[-3:]
+        return "%s%s%s" % (digits, rng.choice(["", "_"]), rng.choice(["u32", "i64", "usize", "u64"])), v
     if r < 0.82:
         t = rng.choice(["2.5", "7.25"])
-        return t + rng.choice(["f32", "f64"]), float(t)
+        return t + rng.choice(["", "_"]) + rng.choice(["f32", "f64"]), float(t)
     if r < 0.88:
         return hex(v), v
     if r < 0.91:
